@@ -94,6 +94,7 @@ func main() {
 			continue
 		}
 		r := runLine(line)
+		r += checkGuards()
 		if pure {
 			if fp := cheapFingerprint(); fp != fp0 {
 				r += " CONFIG-CHANGED"
